@@ -1,0 +1,155 @@
+//go:build verif
+
+// Verification hooks (add-only, compiled only with -tags verif): white-box dumps of the PIT (entries with
+// in- and out-records, per name-tree node in slice order), of the Content Store, of the dead nonce list,
+// and an observer for PIT expirations. No behaviour of the package is changed.
+
+package table
+
+import (
+	"sort"
+
+	enc "github.com/named-data/ndnd/std/encoding"
+)
+
+// VerifInRecord is a copy of one PIT in-record.
+type VerifInRecord struct {
+	Face     uint64
+	Nonce    uint32
+	At       int64 // LatestTimestamp, UnixNano
+	Expiry   int64 // UnixNano
+	PitToken []byte
+}
+
+// VerifOutRecord is a copy of one PIT out-record.
+type VerifOutRecord struct {
+	Face   uint64
+	Nonce  uint32
+	At     int64
+	Expiry int64
+	Name   enc.Name
+}
+
+// VerifPitEntry is a copy of one PIT entry.
+type VerifPitEntry struct {
+	Name        enc.Name
+	NodeDepth   int
+	CanBePrefix bool
+	MustBeFresh bool
+	Hint        enc.Name
+	HintNil     bool
+	Token       uint32
+	Satisfied   bool
+	Queued      bool
+	QueuePrio   int64
+	InTokenMap  bool
+	In          []VerifInRecord
+	Out         []VerifOutRecord
+}
+
+// VerifCsEntry is a copy of one CS entry's metadata.
+type VerifCsEntry struct {
+	Name  enc.Name
+	Stale int64
+	Wire  []byte
+}
+
+func verifNodePath(n *pitCsTreeNode) enc.Name {
+	rev := make(enc.Name, 0)
+	for cur := n; cur != nil && cur.parent != nil; cur = cur.parent {
+		rev = append(rev, *cur.component)
+	}
+	path := make(enc.Name, len(rev))
+	for i := range rev {
+		path[len(rev)-1-i] = rev[i]
+	}
+	return path
+}
+
+func (p *PitCsTree) verifWalk(n *pitCsTreeNode, f func(*pitCsTreeNode)) {
+	f(n)
+	keys := make([]uint64, 0, len(n.children))
+	for k := range n.children {
+		keys = append(keys, k)
+	}
+	sort.Slice(keys, func(i, j int) bool { return keys[i] < keys[j] })
+	for _, k := range keys {
+		p.verifWalk(n.children[k], f)
+	}
+}
+
+// VerifDumpPit returns every PIT entry reachable from the root; entries of one node are adjacent and in
+// the node's slice order.
+func (p *PitCsTree) VerifDumpPit() []VerifPitEntry {
+	out := make([]VerifPitEntry, 0)
+	p.verifWalk(p.root, func(n *pitCsTreeNode) {
+		for _, e := range n.pitEntries {
+			v := VerifPitEntry{
+				Name: e.encname.Clone(), NodeDepth: n.depth, CanBePrefix: e.canBePrefix, MustBeFresh: e.mustBeFresh,
+				Hint: e.forwardingHintNew.Clone(), HintNil: e.forwardingHintNew == nil,
+				Token: e.token, Satisfied: e.satisfied, Queued: e.pqItem != nil,
+			}
+			if e.pqItem != nil {
+				v.QueuePrio = e.pqItem.VerifPriority()
+			}
+			if m, ok := p.pitTokenMap[e.token]; ok && m == e {
+				v.InTokenMap = true
+			}
+			for _, r := range e.inRecords {
+				v.In = append(v.In, VerifInRecord{Face: r.Face, Nonce: r.LatestNonce, At: r.LatestTimestamp.UnixNano(),
+					Expiry: r.ExpirationTime.UnixNano(), PitToken: append([]byte{}, r.PitToken...)})
+			}
+			sort.Slice(v.In, func(i, j int) bool { return v.In[i].Face < v.In[j].Face })
+			for _, r := range e.outRecords {
+				v.Out = append(v.Out, VerifOutRecord{Face: r.Face, Nonce: r.LatestNonce, At: r.LatestTimestamp.UnixNano(),
+					Expiry: r.ExpirationTime.UnixNano(), Name: r.LatestInterest.Clone()})
+			}
+			sort.Slice(v.Out, func(i, j int) bool { return v.Out[i].Face < v.Out[j].Face })
+			out = append(out, v)
+		}
+	})
+	return out
+}
+
+// VerifPitCounters returns (nPitEntries, len(pitTokenMap), expiry queue length).
+func (p *PitCsTree) VerifPitCounters() (int, int, int) {
+	return p.nPitEntries, len(p.pitTokenMap), p.pitExpiryQueue.Len()
+}
+
+// VerifDumpCs returns every CS entry reachable from the root.
+func (p *PitCsTree) VerifDumpCs() []VerifCsEntry {
+	out := make([]VerifCsEntry, 0)
+	p.verifWalk(p.root, func(n *pitCsTreeNode) {
+		if n.csEntry != nil {
+			out = append(out, VerifCsEntry{Name: verifNodePath(n), Stale: n.csEntry.staleTime.UnixNano(),
+				Wire: append([]byte{}, n.csEntry.wire...)})
+		}
+	})
+	return out
+}
+
+// VerifObserveExpiration wraps the table's expiration callback so that f sees each expired entry's token
+// (in pop order) before the original callback runs.
+func (p *PitCsTree) VerifObserveExpiration(f func(token uint32)) {
+	orig := p.onExpiration
+	p.onExpiration = func(e PitEntry) {
+		f(e.Token())
+		orig(e)
+	}
+}
+
+// VerifLen returns the number of keys in the dead nonce list and the length of its expiry queue.
+func (d *DeadNonceList) VerifLen() (int, int) {
+	return len(d.list), d.expirationQueue.Len()
+}
+
+// VerifResetNetworkRegion empties the producer-region table (a package global) between histories.
+func VerifResetNetworkRegion() {
+	NetworkRegion.table = nil
+}
+
+// VerifSetCsFlags sets the package-level CS admit/serve switches (normally read from the configuration).
+func VerifSetCsFlags(admit bool, serve bool) {
+	csAdmit = admit
+	csServe = serve
+}
